@@ -275,6 +275,10 @@ func run1(raw json.RawMessage, skipOut *bool) driver.Result {
 		res := runBytes(in, fail)
 		res.Direct = direct
 		return res
+	case "rflag":
+		res := runRepFlag(in, fail)
+		res.Direct = direct
+		return res
 	case "tags":
 		res := runTags(in, fail)
 		res.Direct = direct
@@ -482,6 +486,8 @@ func gen(r *coqfmt.Rng, n int, tier string) []json.RawMessage {
 			add(genCaseShift(r))
 		case x >= 89:
 			add(genTags(r))
+		case x >= 87:
+			add(genRepFlag(r))
 		case x < 3:
 			add(genBytesCase(r, tg))
 		case x < 7:
@@ -550,6 +556,7 @@ func corpus() []json.RawMessage {
 	caseShiftCorpus(add)
 	refsCorpus(add)
 	tagsCorpus(add)
+	repFlagCorpus(add)
 	return out
 }
 
